@@ -134,7 +134,7 @@ def _split_facts(f, plist):
         if t.get("err"):
             return "pointer facts error in %s: %s" % (name, t["err"])
         for p in plist:
-            p.facts["pointer"][name] = {"edges": [], "resolve": [], "reach": [], "allfuncs": [], "probes": [],
+            p.facts["pointer"][name] = {"edges": [], "resolve": [], "reach": [], "allfuncs": [], "probes": [], "iparams": [],
                                         "findreach": {k: [] for k in t["findreach"]}}
         for e in t["edges"]:
             if e["prog"] in byname:
@@ -153,6 +153,9 @@ def _split_facts(f, plist):
         for e in t["probes"]:
             if e["prog"] in byname:
                 byname[e["prog"]].facts["pointer"][name]["probes"].append(e)
+        for e in t.get("iparams", []):
+            if e["prog"] in byname:
+                byname[e["prog"]].facts["pointer"][name]["iparams"].append(e)
     return None
 
 
@@ -603,6 +606,7 @@ def calls_check(ctx, whats, prop_text):
             raise Inconclusive("native build/run failed for %s: %s" % (p.dir, p.native))
         natf = {e["a"] for r in p.native for e in r["events"] if e["e"] == "enter"}
         pred = {p.flat["decl"][t["ev"]["s"]] for t in truth if t["prog"] is p and t["ev"]["e"] in ("call", "go")}
+        pred -= set(p.flat.get("noenter", []))     # call-free accessors have no enter() line in the Go text
         if natf != pred:
             bad.append((p, sorted(pred - natf), sorted(natf - pred)))
     if bad:
@@ -668,8 +672,11 @@ ALIAS_FAMS = ["value", "field", "container", "call", "closure", "global", "iface
 
 
 def alias_facts_of(p):
-    return {"probes": [{"line": e["line"], "type": e["type"], "labels": e["labels"], "alias": e["alias"], "query": e["query"]}
-                       for e in p.facts["pointer"]["ptr"]["probes"]]}
+    return {"probes": [{"line": e["line"], "type": e["type"], "labels": e["labels"], "alias": e["alias"], "query": e["query"],
+                        "iquery": bool(e.get("iquery")), "ilabels": e.get("ilabels") or []}
+                       for e in p.facts["pointer"]["ptr"]["probes"]],
+            "iparams": [{"decl": e["decl"], "idx": e["idx"], "ilabels": e["ilabels"]}
+                        for e in p.facts["pointer"]["ptr"].get("iparams", [])]}
 
 
 def alias_check(ctx):
@@ -684,6 +691,17 @@ def alias_check(ctx):
         chains |= {tuple(c) for c in enum_chains(ctx, 3, ["plain"], maxdeco=0, tag="k3", fams=ALIAS_FAMS)}
         chains |= {tuple(c) for c in enum_chains(ctx, 2, semgen.DECORATIONS, maxdeco=1, tag="k2d", fams=ALIAS_FAMS)}
     chains = sorted(c for c in chains if any(semgen.STEPS[s][1] in semgen.PROBEABLE for s, _ in c))
+    # aggregates assigned as a whole on one arm of a branch (struct / array typed phi nodes carrying pointers): every
+    # chain of <= 3 field-family steps in which a step producing a by-value aggregate is decorated and followed by a step
+    agg = enum_chains(ctx, 3, ["plain", "then", "else"], maxdeco=1, tag="aggphi", fams=["field"])
+    AGG = {"ST", "SP", "PR", "AR"}
+    agg = sorted({tuple(c) for c in agg
+                  if any(d != "plain" and semgen.STEPS[s_][1] in AGG and j < len(c) - 1 for j, (s_, d) in enumerate(c))
+                  and any(semgen.STEPS[s_][1] in semgen.PROBEABLE for s_, _ in c)} - set(chains))
+    if not thorough:
+        random.Random(ctx.seed + 5).shuffle(agg)
+        agg = sorted(agg[:200])
+    chains = sorted(set(chains) | set(agg))
     nexh = len(chains)
     sim = enum_chains(ctx, 5, semgen.DECORATIONS, maxdeco=2, simulate=(3000 if thorough else 400), depth=6, tag="sim",
                       fams=ALIAS_FAMS)
@@ -750,6 +768,15 @@ def alias_check(ctx):
             what = ("the object observed by probe@line%d was allocated at line %d, which is not in the points-to set %s "
                     "of the probed value" % (m["a"], m["c"], [e["labels"] for e in p.facts["pointer"]["ptr"]["probes"] if e["line"] == m["a"]])
                     if m["what"] == "alloc" else
+                    "the probed value at line %d points to a pointer-like variable that refers to an object allocated at line "
+                    "%d, which is not in the points-to set %s of its INDIRECT query" % (
+                        m["a"], m["c"], [e.get("ilabels") for e in p.facts["pointer"]["ptr"]["probes"] if e["line"] == m["a"]])
+                    if m["what"] == "ialloc" else
+                    "parameter %d of the function declared at line %s receives a pointer to a pointer-like variable that "
+                    "refers to an object allocated at line %d, which is not in the points-to set %s of the parameter's INDIRECT "
+                    "query" % (m["a"], [e["decl"] for e in p.facts["pointer"]["ptr"].get("iparams", []) if e["idx"] == m["a"]],
+                               m["c"], [e["ilabels"] for e in p.facts["pointer"]["ptr"].get("iparams", []) if e["idx"] == m["a"]])
+                    if m["what"] == "iparam" else
                     "probe@line%d and probe@line%d observe the same location at run time but their points-to sets do "
                     "not intersect (may-alias false)" % (m["a"], m["b"]))
             ctx.violation("pointer analysis misses a run-time alias: %s; generated program with chain %s; decision script "
@@ -758,12 +785,20 @@ def alias_check(ctx):
                            "facts.json": json.dumps(p.facts)}, key="C11/%s/%s" % (m["what"], json.dumps(chain)))
     npr = len({(t["prog"].idx, t["ev"]["a"], t["ev"]["b"]) for t in truth if t["ev"]["e"] == "probe"})
     nal = len({(t["prog"].idx, t["ev"]["a"], t["ev"]["b"]) for t in truth if t["ev"]["e"] == "alias"})
+    nip = len({(t["prog"].idx, t["ev"]["a"], t["ev"]["b"]) for t in truth if t["ev"]["e"] == "iprobe"})
+    npar = len({(t["prog"].idx, t["ev"]["s"], t["ev"]["a"]) for t in truth if t["ev"]["e"] == "iparam"})
+    niq = sum(1 for p_ in ok for e in p_.facts["pointer"]["ptr"]["probes"] if e.get("iquery"))
+    if nip == 0 or npar == 0 or niq == 0:
+        raise Inconclusive("vacuous: %d indirect probe observations, %d indirect parameter observations, %d probes with an "
+                           "indirect query" % (nip, npar, niq))
     mid = ok[len(ok) // 2]
     ctx.sample({"chain": mid.meta.get("chain"), "main.go": open(os.path.join(mid.dir, "main.go")).read()[-1200:],
                 "probes": mid.facts["pointer"]["ptr"]["probes"]})
     ctx.extra.update({"programs": len(progs), "programs_checked": len(ok), "facts_absent": len(absent),
                       "exhaustive_chains": nexh, "simulated_chains": len(sim), "probe_observations": npr,
-                      "runtime_alias_pairs": nal, "native_runs": ctx.traces, "programs_run_natively": len(nat)})
+                      "runtime_alias_pairs": nal, "native_runs": ctx.traces, "programs_run_natively": len(nat),
+                      "indirect_probe_observations": nip, "indirect_param_observations": npar,
+                      "probes_with_indirect_query": niq, "aggregate_phi_chains": len(agg)})
     ctx.assumptions += ["GoSem object identities are checked against native addresses (same-type alias pairs over all "
                         "6-bit decision scripts) on every program with a miss and a seeded sample; allocation sites "
                         "are attributed by GoSem (line of the allocating statement)"]
